@@ -369,7 +369,7 @@ Definition al_mark_deleted (l : adjlist) (eid : Z) : adjlist :=
 Fixpoint ins_by_dst (x : Z * Z) (l : list (Z * Z)) : list (Z * Z) :=
   match l with
   | [] => [x]
-  | y :: r => if fst x <? fst y then x :: l else y :: ins_by_dst x r
+  | y :: r => if fst x <=? fst y then x :: l else y :: ins_by_dst x r
   end.
 Definition sort_by_dst (l : list (Z * Z)) : list (Z * Z) := fold_right ins_by_dst [] l.
 
